@@ -1601,7 +1601,7 @@ Theorem topology_frame : forall top t2,
   chain topo_forth (nmap top) = Ok (nmap t2) ->
   chain topo_back t2 = Ok top ->
   legacy_nulls_ok (JObj t2) = true -> doc_ok (prec TOPO_NMSP) (JObj t2) = true ->
-  remove_ns "gnpy-network-topology:" (JObj top) = JObj top ->
+  remove_ns "gnpy-network-topology:" (JObj t2) = JObj t2 ->
   exists y, legacy_to_yang (JObj top) = Ok y /\ yang_to_legacy y = Ok (JObj top).
 Proof.
   intros top t2 He Hf Hb Hn W Hr.
@@ -1613,8 +1613,8 @@ Proof.
     rewrite prec_d_dflt. cbn [none_to_empty] in G1. fold (nmap t2) in G1. rewrite G1. reflexivity.
   - unfold yang_to_legacy, convert_back. cbn [empty_to_none map fst snd]. rewrite cb_obj_eq, mapM_cons, mapM_nil.
     cbn [fst snd]. rewrite G2. cbn [bind as_obj].
-    cbn [jhas jget K_elements TOPO_NMSP String.eqb Ascii.eqb Bool.eqb jreq bind as_obj].
-    rewrite Hb. cbn [bind]. now rewrite Hr.
+    cbn [jhas jget K_elements TOPO_NMSP String.eqb Ascii.eqb Bool.eqb jreq bind].
+    rewrite Hr. cbn [as_obj bind]. rewrite Hb. reflexivity.
 Qed.
 
 Theorem equipment_frame : forall top t2,
@@ -2076,7 +2076,7 @@ Theorem y2l_l2y_topology : forall top t2 es,
   jget K_elements top = Some (JArr es) -> Forall ETS es ->
   chain topo_struct top = Ok t2 ->
   legacy_nulls_ok (JObj t2) = true -> doc_ok (prec TOPO_NMSP) (JObj t2) = true ->
-  remove_ns "gnpy-network-topology:" (JObj top) = JObj top ->
+  remove_ns "gnpy-network-topology:" (JObj t2) = JObj t2 ->
   exists y, legacy_to_yang (JObj top) = Ok y /\ yang_to_legacy y = Ok (JObj top).
 Proof.
   intros top t2 es Hk HF Hc Hn W Hns. destruct (topology_chains top es Hk HF) as (t2' & F & G & B).
